@@ -602,9 +602,10 @@ def dt_check(ctx, case):
                         if v is None:
                             bad = ("missing-output-key", bid, None)
                             break
+                        scalar = not isinstance(v, np.ndarray)  # a NumPy scalar is native by construction: byte order is not comparable
                         v = np.asarray(v)
-                        if not same_dtype(v.dtype, y.dtype):
-                            bad = ("block-dtype", bid, v.dtype.str)
+                        if not (same_dtype(v.dtype, y.dtype) or (scalar and _native(v.dtype) == _native(y.dtype))):
+                            bad = ("block-dtype", bid, v.dtype)
                             break
                         wshape = tuple(c[i] for c, i in zip(y.chunks, bid))
                         if v.ndim != len(wshape) or any(not (isinstance(b_, float) and np.isnan(b_)) and a_ != b_ for a_, b_ in zip(v.shape, wshape)):
@@ -614,16 +615,20 @@ def dt_check(ctx, case):
                     if bad is None:
                         if opt:
                             with dask.config.set({"array.optimize-graph": True}):
-                                got = np.asarray(y.compute(scheduler="sync"))
+                                raw = y.compute(scheduler="sync")
                         else:
-                            got = np.asarray(G.assemble(y, values))
+                            raw = G.assemble(y, values)
+                        got = np.asarray(raw)
+                        if not isinstance(raw, np.ndarray) and _native(got.dtype) == _native(y.dtype):
+                            got = got.astype(y.dtype)  # scalar result: native by construction
                 except Exception as e:  # noqa: BLE001
                     _fail(ctx, signature(case, "compute-raises", post), _c(case, stage=post, optimize=opt, outcome=repr(e)[:240]), "executing the graph raises")
                     return n
                 if bad is not None:
                     kind, bid, g = bad
                     _fail(ctx, signature(case, kind, post, got=g if kind == "block-dtype" else None, adv=y.dtype),
-                          _c(case, stage=post, optimize=opt, block=list(bid), got=g, advertised=y.dtype.str, chunks=str(y.chunks)),
+                          _c(case, stage=post, optimize=opt, block=list(bid), got=(g.str if g.names is None else str(g)) if isinstance(g, np.dtype) else g,
+                             advertised=y.dtype.str if y.dtype.names is None else str(y.dtype), chunks=str(y.chunks)),
                           "a block of the materialized graph does not have the advertised dtype/shape (byte order included)")
                     return n
                 if not same_dtype(got.dtype, y.dtype):
@@ -893,6 +898,8 @@ def dt_gen(rng, op=None):
         pool = rng.choice([NUM, NUM, TIME, STRUCT, NONNATIVE])
         srcs = [_src(rng, rng.choice(pool), shape)]
         p["fn"] = rng.choice(STRUCTURAL)
+        if p["fn"] == "overlap_const" and _dt(srcs[0]["dt"]).kind in "MmSUV":
+            p["fn"] = "map_overlap"  # (a numeric constant boundary cannot be cast to these kinds)
         if p["fn"] == "int" and _dt(srcs[0]["dt"]).kind in "SU":
             p["fn"] = "slice"  # (a block holding a bytes/str scalar has the length of the value, not of the dtype)
         p["idx"] = [rng.randint(0, 9) for _ in range(rng.randint(1, 4))]
@@ -981,7 +988,7 @@ def run(ctx):
     cases = dt_corpus()
     for c in cases:
         ctx.count(dt_class(c), max(1, dt_check(ctx, c)))
-    n_rand = ctx.scale(520, 6000)
+    n_rand = ctx.scale(460, 6000)
     seen = {}
     for i in range(n_rand):
         case = dt_gen(rng)
